@@ -132,7 +132,7 @@ struct PG<'a> {
     dims: Vec<String>,
 }
 
-const IVARS: &[&str] = &["A", "B", "C", "I", "J", "K", "N%", "M%", "X", "Y"];
+const IVARS: &[&str] = &["A", "B", "C", "I", "J", "K", "N%", "M%", "X", "Y", "X#", "Y!", "A1", "AB"];
 const SVARS: &[&str] = &["A$", "B$", "S$"];
 
 impl<'a> PG<'a> {
@@ -204,7 +204,7 @@ impl<'a> PG<'a> {
     fn sexpr(&mut self, depth: usize) -> String {
         if depth == 0 || self.rng.chance(1, 3) {
             return match self.rng.below(4) {
-                0 => format!("\"{}\"", self.rng.pick(&["", "a", "xy", "HELLO", "b c"])),
+                0 => format!("\"{}\"", self.rng.pick(&["", "a", "xy", "HELLO", "b c", "é", "日本", "a,b"])),
                 _ => self.svar(),
             };
         }
@@ -263,11 +263,27 @@ impl<'a> PG<'a> {
                     format!("{}={}+1", self.ivar(), self.ivar())
                 }
             }
-            14 => {
-                let r = self.small();
-                self.replies.push(format!("{}", r));
-                format!("INPUT \"N\";{}", self.ivar())
-            }
+            14 => match self.rng.below(4) {
+                0 => {
+                    // two targets, a string field (possibly non-ASCII or quoted with a comma) and a number
+                    let f = *self.rng.pick(&["abc", "é", "日本 語", "\"a,b\"", " x ", ""]);
+                    let r = self.small();
+                    self.replies.push(format!("{},{}", f, r));
+                    format!("INPUT {},{}", self.svar(), self.ivar())
+                }
+                1 => {
+                    // a reply that is refused first (wrong count), then accepted
+                    let r = self.small();
+                    self.replies.push(format!("{},{},9", r, r));
+                    self.replies.push(format!("{}, {}", r, r + 1));
+                    format!("INPUT ,\"P\";{},{}", self.ivar(), self.ivar())
+                }
+                _ => {
+                    let r = self.small();
+                    self.replies.push(format!("{}", r));
+                    format!("INPUT \"N\";{}", self.ivar())
+                }
+            },
             _ => format!("{}={}", self.ivar(), self.iexpr(1)),
         }
     }
